@@ -1,6 +1,7 @@
 import Cinco.Drv.Wire
 import Cinco.Drv.FieldWire
 import Cinco.Drv.CfgWire
+import Cinco.Drv.ProxyWire
 import Cinco.TreeIO.Include
 import Cinco.Format.Xml
 import Cinco.Format.Yaml
@@ -265,6 +266,8 @@ def handle (cmd : String) (j : Json) : R Json := do
   | "cfg.run" => cfgRun j
   | "env.name" => envNameCmd j
   | "paths" => pathsCmd j
+  | "list.run" => listRun j
+  | "dict.run" => dictRun j
   | "hash" => do
       match Hash.byName (← fStr j "alg") with
       | some h => pure (Json.mkObj [("digest", bytesJson (h (← fBytes j "data")))])
